@@ -197,7 +197,6 @@ func funcReturnsError(pkg *packages.Package, fd *ast.FuncDecl) bool {
 	return res.Len() > 0 && isErrorType(res.At(res.Len()-1).Type())
 }
 
-
 // roleInfo is the type information of package bebop of the program being
 // analysed (set by loadRepo). trCanon renders an expression like wire.Canon
 // but spells every variable by its role where the rules compare against a
@@ -252,7 +251,6 @@ func renameWords(s string, ren map[string]string) string {
 	return b.String()
 }
 
-
 // declClosure: fd and the functions of the same package it calls, transitively
 // (a helper extracted from a function is part of what the function does).
 func declClosure(p *load.Prog, pkg *packages.Package, fd *ast.FuncDecl, maxDepth int) []*ast.FuncDecl {
@@ -285,7 +283,6 @@ func declClosure(p *load.Prog, pkg *packages.Package, fd *ast.FuncDecl, maxDepth
 	add(fd, 0)
 	return out
 }
-
 
 // caseConds maps every case expression of the tagged switches of fd to the
 // comparison it stands for. go/cfg records a tagged switch as the tag followed
